@@ -21,9 +21,12 @@ def main():
     outdir, pid = sys.argv[1], sys.argv[2].upper()
     suite = "--suite" in sys.argv
     checks = [pid]
+    offset = 0
     for a in sys.argv[3:]:
         if a.startswith("--checks"):
             checks = a.split("=", 1)[1].split(",")
+        if a.startswith("--offset"):
+            offset = int(a.split("=", 1)[1])
     agent_meta = []
     mp = os.path.join(outdir, "meta.json")
     if os.path.exists(mp):
@@ -85,7 +88,7 @@ def main():
         rec["confirmed"] = bool(confirmed)
         print(json.dumps({k: v for k, v in rec.items() if k not in ("demo_output_with_patch",)}, indent=1))
         if confirmed:
-            dst = os.path.join(VERIF, "seeded", f"{pid}-{K}")
+            dst = os.path.join(VERIF, "seeded", f"{pid}-{K + offset}")
             os.makedirs(dst, exist_ok=True)
             shutil.copy(patch, os.path.join(dst, "patch.diff"))
             shutil.copy(demo, os.path.join(dst, "demo.py"))
